@@ -474,6 +474,73 @@ func TestMetricLog(t *testing.T) {
 					}
 				}
 			}
+			// ---- crash, restart, continue: after the cut the writer comes back, logs further seconds, and ONE searcher
+			// answers a query that begins inside the damaged file and then queries about the time after the restart ----
+			for rep := 0; rep < 2 && len(inLast) > 0; rep++ {
+				cd2 := cd + "-restart"
+				os.RemoveAll(cd2)
+				copyDir(dir, cd2)
+				target2 := filepath.Join(cd2, filepath.Base(files[lastIdx]))
+				if which == 1 {
+					target2 += ".idx"
+				}
+				k := rapid.IntRange(0, size).Draw(t, "restartCut")
+				os.Truncate(target2, int64(k))
+				ent2 := config.NewDefaultConfig()
+				ent2.Sentinel.Log.Dir = cd2
+				config.ResetGlobalConfig(ent2)
+				ts2 := ts + uint64(rapid.SampledFrom([]int{1000, 1000, 3000, 60000}).Draw(t, "downtime"))
+				hx.C.SetMs(ts2)
+				w2, err := metric.NewDefaultMetricLogWriterOfApp(maxSize, maxFiles, "app")
+				if err != nil {
+					t.Fatalf("writer restart after a cut at byte %d: %v", k, err)
+				}
+				var post []string
+				nw := rapid.IntRange(1, 4).Draw(t, "writesAfterRestart")
+				for i := 0; i < nw; i++ {
+					items := drawItems(t)
+					if err := w2.Write(ts2+uint64(i)*1000, items); err != nil {
+						t.Fatalf("Write after restart: %v", err)
+					}
+					post = append(post, keysOf(items)...)
+				}
+				w2.(interface{ Close() error }).Close()
+				onDisk := map[string]bool{}
+				for _, l := range plainRead(dataFiles(cd2)) {
+					onDisk[l.key] = true
+				}
+				one := fresh(cd2)
+				seq := []query{{begin: inLast[rapid.IntRange(0, len(inLast)-1).Draw(t, "beginInCutFile")].sec * 1000, end: ts2 + 100000},
+					{begin: ts2, end: ts2 + 100000}, {limit: true, begin: ts2, maxLines: 1000}, {begin: ts2 + uint64(nw-1)*1000, end: ts2 + 100000}}
+				for qi, q := range seq {
+					got, err1, pn1 := run(one, q)
+					ref, err2, pn2 := run(fresh(cd2), q)
+					c.Count("queries_after_restart", 1)
+					if pn1 != nil || pn2 != nil {
+						t.Fatalf("%s file cut at byte %d, writer restarted: query %d %+v panicked: %v %v", []string{"data", "index"}[which], k, qi, q, pn1, pn2)
+					}
+					if (err1 == nil) != (err2 == nil) || fmt.Sprint(got) != fmt.Sprint(ref) {
+						t.Fatalf("%s file cut at byte %d of %d, writer restarted at +%d ms and wrote %d more seconds: query %d %+v on the searcher that answered the earlier queries returns %v (err %v), a fresh searcher returns %v (err %v)",
+							[]string{"data", "index"}[which], k, size, ts2-ts, nw, qi, q, got, err1, ref, err2)
+					}
+					if qi == 1 && err1 == nil {
+						gotSet := map[string]bool{}
+						for _, g := range got {
+							gotSet[g] = true
+						}
+						for _, pk := range post {
+							if onDisk[pk] && !gotSet[pk] {
+								t.Fatalf("%s file cut at byte %d of %d, writer restarted and wrote %d more seconds: item %s written after the restart is on disk but is not returned by %+v (got %v)", []string{"data", "index"}[which], k, size, nw, pk, q, got)
+							}
+						}
+					}
+				}
+				os.RemoveAll(cd2)
+			}
+			ent3 := config.NewDefaultConfig()
+			ent3.Sentinel.Log.Dir = dir
+			config.ResetGlobalConfig(ent3)
+			hx.C.SetMs(ts)
 			os.RemoveAll(cd)
 		}
 		c.Class("truncation-sweep")
